@@ -18,6 +18,7 @@
 #include <vector>
 #include <string>
 #include <memory>
+#include <new>
 #include <map>
 #include <functional>
 #include <cstring>
@@ -28,6 +29,8 @@
 #include "CppUTest/MemoryLeakDetector.h"
 #include "CppUTest/MemoryLeakWarningPlugin.h"
 #include "CppUTest/TestMemoryAllocator.h"
+#include "CppUTest/TestOutput.h"
+#include "CppUTest/TestResult.h"
 #include "CppUTest/SimpleStringInternalCache.h"
 #include "CppUTest/PlatformSpecificFunctions.h"
 #include "CppUTest/MemoryLeakDetectorMallocMacros.h"
@@ -127,9 +130,10 @@ void flush_nop() {}
 // calls into the code under test happen inside a window: arena capture on, real global operators on.
 // No harness allocation inside a window.
 bool g_threadsafe_overloads = false;          // which set of global overloads the window switches on
+bool g_window_inert = false;                  // section routing: the table stays as the case's history left it
 struct Window {
-    Window() { g_capture = true; if (g_threadsafe_overloads) MemoryLeakWarningPlugin::turnOnThreadSafeNewDeleteOverloads(); else MemoryLeakWarningPlugin::turnOnDefaultNotThreadSafeNewDeleteOverloads(); }
-    ~Window() { MemoryLeakWarningPlugin::turnOffNewDeleteOverloads(); g_capture = false; }
+    Window() { if (g_window_inert) return; g_capture = true; if (g_threadsafe_overloads) MemoryLeakWarningPlugin::turnOnThreadSafeNewDeleteOverloads(); else MemoryLeakWarningPlugin::turnOnDefaultNotThreadSafeNewDeleteOverloads(); }
+    ~Window() { if (g_window_inert) return; MemoryLeakWarningPlugin::turnOffNewDeleteOverloads(); g_capture = false; }
 };
 
 // ------------------------------------------------------------------ recording reporter
@@ -166,6 +170,10 @@ enum { W_NONE = 0, W_ACCT = 1, W_CACHE = 2, W_MLA = 3 };
 enum { K_GLOBAL = 0, K_REALLOC = 1, K_MLA = 2 };
 const char* ALLOC_NAME[] = {"new", "new[]", "malloc"};
 const char* REL_NAME[] = {"delete", "delete[]", "free"};
+// every allocating form of the global routing table
+enum { NFORMS = 8 };
+const int FORM_FAM[NFORMS] = {0, 1, 0, 1, 0, 1, 2, 2};
+const char* FORM_NAME[NFORMS] = {"new", "new[]", "new(nothrow)", "new[](nothrow)", "new(file,line)", "new[](file,line)", "malloc", "realloc(NULL)"};
 const char* WRAP_NAME[] = {"", "+accounting-allocator", "+string-cache-allocator", "+leak-allocator"};
 
 TestMemoryAllocator* defalloc(int f) { return f == NEW ? defaultNewAllocator() : f == ARR ? defaultNewArrayAllocator() : defaultMallocAllocator(); }
@@ -240,6 +248,30 @@ struct Env {
         Blk b; b.p = p; b.size = size; b.fam = f;
         for (size_t i = 0; i < size; i++) p[i] = (char)pat(i);
         memcpy(b.g0, p + size, 3);          // the 3 bytes behind the user bytes as the allocation left them
+        return b;
+    }
+    // allocation through one of the forms of the global routing table, with whatever allocator is current
+    Blk alloc_form(int form, size_t size) {
+        char* p = nullptr;
+        vf::ctx(FORM_NAME[form]);
+        {
+            Window win;
+            switch (form) {
+            case 0: p = (char*)operator new(size); break;
+            case 1: p = (char*)operator new[](size); break;
+            case 2: p = (char*)operator new(size, std::nothrow); break;
+            case 3: p = (char*)operator new[](size, std::nothrow); break;
+            case 4: p = (char*)operator new(size, "alloc.c", (size_t)14); break;
+            case 5: p = (char*)operator new[](size, "alloc.c", (size_t)15); break;
+            case 6: p = (char*)cpputest_malloc_location(size, "alloc.c", 12); break;
+            default: p = (char*)cpputest_realloc_location(nullptr, size, "alloc.c", 13); break;
+            }
+        }
+        if (!p) vf::harness_error("allocation returned NULL");
+        if (rep.calls) vf::harness_error(std::string("report during an allocation: ") + rep.first);
+        Blk b; b.p = p; b.size = size; b.fam = FORM_FAM[form];
+        for (size_t i = 0; i < size; i++) p[i] = (char)pat(i);
+        memcpy(b.g0, p + size, 3);
         return b;
     }
     // release through channel (kind, family f, wrapper w) of an arbitrary address; returns realloc's result
@@ -609,29 +641,36 @@ void addr_case(long idx) {
     if (vf::want_sample()) vf::sample(desc());
 }
 
-// ------------------------------------------------------------------ section routing: the process-wide current allocators
-// Allocation and release go through the global routing only (operator new / new[] / cpputest_malloc..., operator delete /
-// delete[] / cpputest_free / cpputest_realloc with the detector's overloads on): the harness never names an allocator.
-// Before the allocation and between allocation and release every history of allocator manipulations up to a depth is
+// ------------------------------------------------------------------ section routing: the process-wide routing state
+// Allocation and release go through the global routing only: every allocating form of the routing table (operator new,
+// new[], their nothrow and file/line forms, cpputest_malloc, cpputest_realloc(NULL)) and operator delete / delete[] /
+// cpputest_free / cpputest_realloc. The harness names no allocator and does NOT rewrite the overload table around each
+// call: the table is switched on once when the case starts and from then on only the enumerated manipulations touch
+// it. Before the allocation and between allocation and release every history of manipulations up to a depth is
 // executed: GlobalMemoryAllocatorStash save / restore, setCurrentXAllocator(custom of family X) / ...ToDefault for each
-// family, GlobalMemoryAccountant start / stop. Oracle as everywhere (the allocating OPERATOR's family against the
-// releasing entry point's family); in addition a slot model of the three current allocators is compared with
-// getCurrentXAllocator() after every manipulation.
+// family, GlobalMemoryAccountant start / stop, saveAndDisableNewDeleteOverloads+restoreNewDeleteOverloads,
+// turnOffNewDeleteOverloads+turnOnDefaultNotThreadSafeNewDeleteOverloads, turnOnThreadSafeNewDeleteOverloads.
+// Oracle as everywhere (family of the allocating FORM against the releasing entry point's family); in addition a slot
+// model of the three current allocators is compared with getCurrentXAllocator() after every manipulation.
+// While the table is on the harness performs no heap allocation (fixed buffers, failures recorded and emitted afterwards).
 TestMemoryAllocator g_custom_new("Standard New Allocator", "new", "delete");            // custom allocators OF the family:
 TestMemoryAllocator g_custom_arr("Standard New [] Allocator", "new []", "delete []");   // the library's own notion of
 TestMemoryAllocator g_custom_mal("Standard Malloc Allocator", "malloc", "free");        // "equal type" is the name
 TestMemoryAllocator* custom(int f) { return f == NEW ? &g_custom_new : f == ARR ? &g_custom_arr : &g_custom_mal; }
 TestMemoryAllocator* current(int f) { return f == NEW ? getCurrentNewAllocator() : f == ARR ? getCurrentNewArrayAllocator() : getCurrentMallocAllocator(); }
 enum { S_DEF = 0, S_CUSTOM = 1, S_ACCT = 2 };
-enum { O_SAVE, O_RESTORE, O_SETC0, O_SETC1, O_SETC2, O_SETD0, O_SETD1, O_SETD2, O_START, O_STOP, O_COUNT };
+enum { O_SAVE, O_RESTORE, O_SETC0, O_SETC1, O_SETC2, O_SETD0, O_SETD1, O_SETD2, O_START, O_STOP, O_OVL_SAVEREST, O_OVL_OFFON, O_OVL_TS, O_COUNT };
 const char* OP_NAME[] = {"stash.save", "stash.restore", "setCurrentNewAllocator(custom)", "setCurrentNewArrayAllocator(custom)", "setCurrentMallocAllocator(custom)",
-                         "setCurrentNewAllocatorToDefault", "setCurrentNewArrayAllocatorToDefault", "setCurrentMallocAllocatorToDefault", "accountant.start", "accountant.stop"};
+                         "setCurrentNewAllocatorToDefault", "setCurrentNewArrayAllocatorToDefault", "setCurrentMallocAllocatorToDefault", "accountant.start", "accountant.stop",
+                         "saveAndDisableNewDeleteOverloads+restoreNewDeleteOverloads", "turnOffNewDeleteOverloads+turnOnDefaultNotThreadSafeNewDeleteOverloads", "turnOnThreadSafeNewDeleteOverloads"};
+alignas(16) char g_ga_storage[sizeof(GlobalMemoryAccountant)];
 struct Routing {
     int slot[3] = {S_DEF, S_DEF, S_DEF};
     bool saved = false; int saved_slot[3] = {0, 0, 0};
     bool started = false, stopped = false, diverged = false; int orig[3] = {0, 0, 0};
+    bool threadsafe_table = false;
     GlobalMemoryAllocatorStash stash;
-    std::unique_ptr<GlobalMemoryAccountant> ga;
+    GlobalMemoryAccountant* ga = nullptr;
     bool enabled(int op) const {
         if ((op == O_START || op == O_STOP) && diverged) return false;
         if (op == O_START) return !started;                                   // a second start() is a documented usage error (FAIL)
@@ -646,8 +685,11 @@ struct Routing {
         case O_SETD0: setCurrentNewAllocatorToDefault(); slot[0] = S_DEF; break;
         case O_SETD1: setCurrentNewArrayAllocatorToDefault(); slot[1] = S_DEF; break;
         case O_SETD2: setCurrentMallocAllocatorToDefault(); slot[2] = S_DEF; break;
-        case O_START: ga.reset(new GlobalMemoryAccountant); ga->start(); started = true; for (int i = 0; i < 3; i++) { orig[i] = slot[i]; slot[i] = S_ACCT; } break;
+        case O_START: ga = new (g_ga_storage) GlobalMemoryAccountant; ga->start(); started = true; for (int i = 0; i < 3; i++) { orig[i] = slot[i]; slot[i] = S_ACCT; } break;
         case O_STOP: ga->stop(); stopped = true; for (int i = 0; i < 3; i++) slot[i] = orig[i]; break;
+        case O_OVL_SAVEREST: MemoryLeakWarningPlugin::saveAndDisableNewDeleteOverloads(); MemoryLeakWarningPlugin::restoreNewDeleteOverloads(); break;
+        case O_OVL_OFFON: MemoryLeakWarningPlugin::turnOffNewDeleteOverloads(); MemoryLeakWarningPlugin::turnOnDefaultNotThreadSafeNewDeleteOverloads(); threadsafe_table = false; break;
+        case O_OVL_TS: MemoryLeakWarningPlugin::turnOnThreadSafeNewDeleteOverloads(); threadsafe_table = true; break;
         }
     }
     TestMemoryAllocator* expected(int f) const {
@@ -656,26 +698,34 @@ struct Routing {
         return f == NEW ? ga->getNewAllocator() : f == ARR ? ga->getNewArrayAllocator() : ga->getMallocAllocator();
     }
 };
-void routing_case(vf::Chooser& ch, int depth_before, int depth_between) {
-    int T = ch.choose(2), gs = ch.choose(2), fa = ch.choose(3), rc = ch.choose(4);      // rc: delete, delete[], free, realloc
-    int fr = rc == 3 ? MAL : rc, kind = rc == 3 ? K_REALLOC : K_GLOBAL;
+struct Pending { const char* sig; char detail[1700]; };
+void routing_case(vf::Chooser& ch, int depth_before, int depth_between, int depth_total) {
+    ch.c.reserve(256); ch.n.reserve(256);
+    int T = ch.choose(2), gs = ch.choose(2), form = ch.choose(NFORMS), rc = ch.choose(4);      // rc: delete, delete[], free, realloc
+    int fa = FORM_FAM[form], fr = rc == 3 ? MAL : rc, kind = rc == 3 ? K_REALLOC : K_GLOBAL;
     Env env(T != 0);
     env.route_only = true; env.qual = "/routed";
     Routing ro;
-    std::string trace; int nops = 0; bool bad_slot = false;
-    auto check_slots = [&]() {
+    static char trace[1500]; size_t tl = 0; trace[0] = 0;
+    static Pending pend[3]; int npend = 0;
+    auto say = [&](const char* f, const char* a = "") { int n = snprintf(trace + tl, sizeof trace - tl, f, a); if (n > 0) tl += (size_t)n; if (tl >= sizeof trace) tl = sizeof trace - 1; };
+    auto pending = [&](const char* sig, const char* what, const char* arg) {
+        for (int i = 0; i < npend; i++) if (strcmp(pend[i].sig, sig) == 0) return;
+        if (npend >= 3) return;
+        pend[npend].sig = sig; snprintf(pend[npend].detail, sizeof pend[npend].detail, "%s: ", trace);
+        size_t l = strlen(pend[npend].detail); snprintf(pend[npend].detail + l, sizeof pend[npend].detail - l, what, arg); npend++;
+    };
+    int nops = 0; bool bad_slot = false;
+    auto check_state = [&]() {
         for (int f = 0; f < 3; f++) {
             TestMemoryAllocator* c = current(f);
-            if (strcmp(c->actualAllocator()->name(), defalloc(f)->name()) != 0) {
-                bad_slot = true;
-                vf::fail("routing/current-allocator-of-another-family", trace + vf::fmt(": the current %s allocator is now '%s'", ALLOC_NAME[f], c->actualAllocator()->name()));
-            } else if (c != ro.expected(f)) {
-                bad_slot = true;
-                vf::fail(ro.slot[f] == S_DEF ? "routing/default-allocator-not-current" : "routing/current-allocator-not-the-installed-one", trace + vf::fmt(": the current %s allocator is not the %s one", ALLOC_NAME[f], ro.slot[f] == S_DEF ? "default" : ro.slot[f] == S_CUSTOM ? "custom" : "accounting"));
-            }
+            if (strcmp(c->actualAllocator()->name(), defalloc(f)->name()) != 0) { bad_slot = true; pending("routing/current-allocator-of-another-family", f == NEW ? "the current new allocator is now '%s'" : f == ARR ? "the current new[] allocator is now '%s'" : "the current malloc allocator is now '%s'", c->actualAllocator()->name()); }
+            else if (c != ro.expected(f)) { bad_slot = true; pending(ro.slot[f] == S_DEF ? "routing/default-allocator-not-current" : "routing/current-allocator-not-the-installed-one", "the current %s allocator is not the one the history installed", ALLOC_NAME[f]); }
         }
+        if (!MemoryLeakWarningPlugin::areNewDeleteOverloaded()) pending("routing/overloads-not-active", "areNewDeleteOverloaded() is false although the overloads were %s", "switched on");
     };
     auto history = [&](int depth) {
+        int used = 0;
         for (int i = 0; i < depth; i++) {
             int en[O_COUNT], n = 0;
             for (int op = 0; op < O_COUNT; op++) if (ro.enabled(op)) en[n++] = op;
@@ -684,28 +734,103 @@ void routing_case(vf::Chooser& ch, int depth_before, int depth_between) {
             int op = en[c - 1];
             vf::ctx(OP_NAME[op]);
             ro.apply(op);
-            trace += std::string(OP_NAME[op]) + "; "; nops++;
-            check_slots();
+            say("%s; ", OP_NAME[op]); nops++; used++;
+            check_state();
             if (bad_slot) ro.diverged = true;  // the slot model no longer describes the library: accountant start/stop (whose
                                                // usage rules are decided on the model) are not issued any more; the verdict is still judged
         }
+        return used;
     };
-    history(depth_before);
-    Blk b = env.alloc(fa, W_NONE, 5);
-    trace += vf::fmt("p = %s(5); ", ALLOC_NAME[fa]);
-    if (gs) { b.p[b.size + 1] = (char)(b.g0[1] ^ 0x10); trace += "p[6] overwritten; "; }
-    history(depth_between);
+    // ---- the routing table is live from here; no harness heap allocation until it is switched off again
+    g_window_inert = true; g_capture = true;
+    MemoryLeakWarningPlugin::turnOnDefaultNotThreadSafeNewDeleteOverloads();
+    int used = history(depth_before);
+    Blk b = env.alloc_form(form, 5);
+    say("p = %s(5); ", FORM_NAME[form]);
+    if (gs) { b.p[b.size + 1] = (char)(b.g0[1] ^ 0x10); say("p[6] overwritten; "); }
+    history(depth_total - used < depth_between ? depth_total - used : depth_between);
     bool changed = guard_changed(b);
-    trace += vf::fmt("%s(p)", chan_name(kind, fr));
-    auto desc = [&]() { return trace + vf::fmt(" (type checking %s)", T ? "on" : "off"); };
+    say("%s(p)", chan_name(kind, fr));
     env.watch(b);
     env.release(kind, fr, W_NONE, b.p, 9);
+    Reporter seen = env.rep;                       // what the judged release produced
+    Watch w = g_watch; g_watch.armed = false;
+    if (ro.ga) { ro.ga->~GlobalMemoryAccountant(); ro.ga = nullptr; }      // its allocators were obtained through the live table
+    MemoryLeakWarningPlugin::turnOffNewDeleteOverloads();
+    g_capture = false; g_window_inert = false;
+    // ---- table off
+    env.rep = seen; g_watch = w;
+    for (int i = 0; i < npend; i++) vf::fail(pend[i].sig, pend[i].detail);
+    auto desc = [&]() { return std::string(trace) + vf::fmt(" (type checking %s)", T ? "on" : "off"); };
     Cat want = reference(true, false, fa, fr, T != 0, changed);
     env.judge(chan_name(kind, fr), false, want, desc);
     const char* pv = kind == K_GLOBAL ? env.poison_verdict(chan_name(kind, fr), false, desc) : "n/a";
     env.anomalies();
-    vf::outcome(vf::fmt("%s<-%s %s %s slots %d%d%d", chan_name(kind, fr), ALLOC_NAME[fa], CAT[want], pv, ro.slot[0], ro.slot[1], ro.slot[2]));
+    vf::outcome(vf::fmt("%s<-%s %s %s slots %d%d%d ts=%d", chan_name(kind, fr), FORM_NAME[form], CAT[want], pv, ro.slot[0], ro.slot[1], ro.slot[2], ro.threadsafe_table));
     if (nops && want != C_NONE) vf::count("nontrivial");
+    vf::count("ops", nops + 2);
+    if (vf::want_sample()) vf::sample(desc());
+}
+
+// ------------------------------------------------------------------ section typeflag: the type checking switch in histories
+// The switch is part of an enumerated history instead of being set right before the release: {enable,disable}
+// AllocationTypeChecking interleaved with the detector's period operations (startChecking, stopChecking, enable, disable,
+// clearAllAccounting(all), markCheckingPeriodLeaksAsNonCheckingPeriod) and with a MemoryLeakWarningPlugin's pre/post
+// test actions on the same detector, before the allocation and between allocation and release. Reference: the flag in
+// force at the release is the last explicit setting (default on) - nothing else changes it; clearAllAccounting(all)
+// between allocation and release makes the block "not outstanding".
+enum { F_TC_ON, F_TC_OFF, F_START, F_STOP, F_ENABLE, F_DISABLE, F_CLEAR, F_MARK, F_PRE, F_POST, F_COUNT };
+const char* FOP_NAME[] = {"enableAllocationTypeChecking", "disableAllocationTypeChecking", "startChecking", "stopChecking", "enable", "disable",
+                          "clearAllAccounting(all)", "markCheckingPeriodLeaksAsNonCheckingPeriod", "plugin.preTestAction", "plugin.postTestAction"};
+void typeflag_case(vf::Chooser& ch, int depth_total) {
+    int gs = ch.choose(2), fa = ch.choose(3), rc = ch.choose(4);
+    int fr = rc == 3 ? MAL : rc, kind = rc == 3 ? K_REALLOC : K_GLOBAL;
+    Env env(true);
+    env.qual = "/flag-history";
+    MemoryLeakWarningPlugin plugin("c06-local", env.det);          // a plugin working on the detector under test
+    StringBufferTestOutput out; TestResult result(out); UtestShell shell("g", "n", "f.cpp", 1);
+    bool T = true, outstanding = false, allocated = false;
+    std::string trace; int nops = 0, left = depth_total; bool flag_op = false, period_after_flag = false;
+    auto history = [&]() {
+        while (left > 0) {
+            int c = ch.choose(F_COUNT + 1);
+            if (c == 0) break;
+            int op = c - 1; left--; nops++;
+            vf::ctx(FOP_NAME[op]);
+            switch (op) {
+            case F_TC_ON: env.det->enableAllocationTypeChecking(); T = true; break;
+            case F_TC_OFF: env.det->disableAllocationTypeChecking(); T = false; break;
+            case F_START: env.det->startChecking(); break;
+            case F_STOP: env.det->stopChecking(); break;
+            case F_ENABLE: env.det->enable(); break;
+            case F_DISABLE: env.det->disable(); break;
+            case F_CLEAR: env.det->clearAllAccounting(mem_leak_period_all); if (allocated) outstanding = false; break;
+            case F_MARK: env.det->markCheckingPeriodLeaksAsNonCheckingPeriod(); break;
+            case F_PRE: plugin.preTestAction(shell, result); break;
+            case F_POST: plugin.postTestAction(shell, result); break;
+            }
+            if (op <= F_TC_OFF) flag_op = true; else if (flag_op) period_after_flag = true;
+            trace += std::string(FOP_NAME[op]) + "; ";
+        }
+    };
+    history();
+    Blk b = env.alloc(fa, W_NONE, 6);
+    allocated = outstanding = true;
+    trace += vf::fmt("p = %s(6); ", ALLOC_NAME[fa]);
+    if (gs) { b.p[b.size + 2] = (char)(b.g0[2] ^ 0x02); trace += "p[8] overwritten; "; }
+    history();
+    bool changed = guard_changed(b);
+    trace += vf::fmt("%s(p)", chan_name(kind, fr));
+    auto desc = [&]() { return trace + vf::fmt(" (last explicit setting of type checking: %s)", T ? "on" : "off"); };
+    env.watch(b);
+    // (Env::release would overwrite nothing of the flag: it only resets the reporter and the text buffer)
+    env.release(kind, fr, W_NONE, b.p, 9);
+    Cat want = reference(outstanding, false, fa, fr, T, changed);
+    env.judge(chan_name(kind, fr), false, want, desc);
+    if (outstanding && kind == K_GLOBAL) env.poison_verdict(chan_name(kind, fr), false, desc);
+    env.anomalies();
+    vf::outcome(vf::fmt("%s<-%s %s tc=%d flagop=%d then-period-op=%d", chan_name(kind, fr), ALLOC_NAME[fa], CAT[want], T, flag_op, period_after_flag));
+    if (period_after_flag && fa != fr) vf::count("nontrivial");       // the switch was set and a period operation followed before a cross-family release
     vf::count("ops", nops + 2);
     if (vf::want_sample()) vf::sample(desc());
 }
@@ -799,6 +924,8 @@ int main(int argc, char** argv) {
     MemoryLeakWarningPlugin::getGlobalDetector();
     defaultNewAllocator(); defaultNewArrayAllocator(); defaultMallocAllocator(); NullUnknownAllocator::defaultAllocator();
     UtestShell::getCurrent()->print("warm-up", "c06", 1);
+    static MemoryLeakWarningPlugin first_plugin("c06-first");      // MemoryLeakWarningPlugin::firstPlugin_ must not point into a case
+    MemoryLeakWarningPlugin::getGlobalDetector()->disable();
     PlatformSpecificMalloc = arena_malloc; PlatformSpecificFree = arena_free; PlatformSpecificRealloc = arena_realloc;
 
     bool TH = vf::thorough();
@@ -860,9 +987,14 @@ int main(int argc, char** argv) {
     vf::section_dfs("hist", 3, false, [&](vf::Chooser& ch) { hist_case(ch, depth, maxlive); });
     vf::require_outcomes("hist", 20);
 
-    int rb = TH ? 3 : 2, rbt = 2;
-    vf::info("routing.bound", vf::fmt("3 allocating operators (new, new[], malloc) x 4 releasing entry points (delete, delete[], free, realloc) through the global routing only x type checking on/off x guard {intact, one byte changed} x every history of <= %d allocator manipulations before the allocation x every history of <= %d between allocation and release, over {GlobalMemoryAllocatorStash save, restore; setCurrent{New,NewArray,Malloc}Allocator(custom allocator of that family); setCurrent{New,NewArray,Malloc}AllocatorToDefault; GlobalMemoryAccountant start, stop (only where the documented usage allows them)}; after every manipulation the three current allocators are compared with a slot model", rb, rbt));
-    vf::section_dfs("routing", 4, false, [&](vf::Chooser& ch) { routing_case(ch, rb, rbt); });
+    int rb = 2, rbt = 2, rtot = TH ? 4 : 3;
+    vf::info("routing.bound", vf::fmt("8 allocating forms of the routing table (new, new[], new(nothrow), new[](nothrow), new(size,file,line), new[](size,file,line), malloc, realloc(NULL)) x 4 releasing entry points (delete, delete[], free, realloc) through the global routing only x type checking on/off x guard {intact, one byte changed} x every history of <= %d manipulations before the allocation x every history of <= %d between allocation and release (together <= %d), over {GlobalMemoryAllocatorStash save, restore; setCurrent{New,NewArray,Malloc}Allocator(custom allocator of that family); setCurrent{New,NewArray,Malloc}AllocatorToDefault; GlobalMemoryAccountant start, stop (only where the documented usage allows them); saveAndDisableNewDeleteOverloads+restoreNewDeleteOverloads; turnOffNewDeleteOverloads+turnOnDefaultNotThreadSafeNewDeleteOverloads; turnOnThreadSafeNewDeleteOverloads}; the overload table is switched on once per case and afterwards touched by these manipulations only; after every manipulation the three current allocators are compared with a slot model", rb, rbt, rtot));
+    vf::section_dfs("routing", 4, false, [&](vf::Chooser& ch) { routing_case(ch, rb, rbt, rtot); });
     vf::require_outcomes("routing", 40);
+
+    int fdepth = TH ? 4 : 3;
+    vf::info("typeflag.bound", vf::fmt("3 allocating operators x 4 releasing entry points x guard {intact, one byte changed} x every way of placing <= %d operations before the allocation and between allocation and release, over {enableAllocationTypeChecking, disableAllocationTypeChecking, startChecking, stopChecking, enable, disable, clearAllAccounting(all), markCheckingPeriodLeaksAsNonCheckingPeriod, MemoryLeakWarningPlugin::preTestAction, ::postTestAction of a plugin on the same detector}; the switch in force at the release is the last explicit setting (default on)", fdepth));
+    vf::section_dfs("typeflag", 3, false, [&](vf::Chooser& ch) { typeflag_case(ch, fdepth); });
+    vf::require_outcomes("typeflag", 40);
     return vf::finish();
 }
